@@ -204,7 +204,7 @@ def expand_names(fnode, expr, depth=3):
     return ast.fix_missing_locations(out)
 
 
-def compare_atoms(test, polarity=True):
+def _compare_atoms(test, polarity=True):
     """Decompose a boolean test into a list of atomic facts known to hold when
     the test evaluates to ``polarity``.  Each fact is (lhs_text, op, rhs_text)
     with op in '<','<=','>','>=','==','!=','is','is not','in','not in',
@@ -214,16 +214,16 @@ def compare_atoms(test, polarity=True):
     facts = []
     inl = inline_pred(test)
     if inl is not None:
-        return compare_atoms(inl, polarity) + [('truthy' if polarity else 'falsy', src(test))]
+        return _compare_atoms(inl, polarity) + [('truthy' if polarity else 'falsy', src(test))]
     if isinstance(test, ast.UnaryOp) and isinstance(test.op, ast.Not):
-        return compare_atoms(test.operand, not polarity)
+        return _compare_atoms(test.operand, not polarity)
     if isinstance(test, ast.BoolOp):
         if isinstance(test.op, ast.And) and polarity:
             for v in test.values:
-                facts += compare_atoms(v, True)
+                facts += _compare_atoms(v, True)
         elif isinstance(test.op, ast.Or) and not polarity:
             for v in test.values:
-                facts += compare_atoms(v, False)
+                facts += _compare_atoms(v, False)
         return facts
     if isinstance(test, ast.Compare):
         # chain a op b op c == (a op b) and (b op c)
@@ -240,6 +240,23 @@ def compare_atoms(test, polarity=True):
         return facts
     facts.append(('truthy' if polarity else 'falsy', src(test)))
     return facts
+
+
+_SWAP = {'<': '>', '>': '<', '<=': '>=', '>=': '<=', '==': '==', '!=': '!=', 'is': 'is', 'is not': 'is not'}
+
+
+def compare_atoms(test, polarity=True):
+    """Facts known when `test` evaluates to `polarity` (see _compare_atoms); every binary fact is returned in both
+    spellings (a < b and b > a), so membership tests are independent of how the source orders the operands."""
+    out = []
+    for f in _compare_atoms(test, polarity):
+        if f not in out:
+            out.append(f)
+        if len(f) == 3 and f[1] in _SWAP:
+            g = (f[2], _SWAP[f[1]], f[0])
+            if g not in out:
+                out.append(g)
+    return out
 
 
 def fact_holds(facts, lhs, op, rhs):
@@ -396,3 +413,101 @@ def literal_tuple(e):
 def loc(finfo_or_mod, node):
     f = getattr(finfo_or_mod, 'file', None) or getattr(finfo_or_mod, 'relpath', '?')
     return '%s:%s' % (f, getattr(node, 'lineno', '?'))
+
+
+def alpha_src(expr):
+    """Normalised text with comprehension / lambda variables renamed canonically (alpha-equivalence)."""
+    import copy
+    e = copy.deepcopy(expr)
+    counter = [0]
+
+    def rename_in(node, mapping):
+        for n in ast.walk(node):
+            if isinstance(n, ast.Name) and n.id in mapping:
+                n.id = mapping[n.id]
+
+    for n in ast.walk(e):
+        if isinstance(n, (ast.ListComp, ast.SetComp, ast.GeneratorExp, ast.DictComp)):
+            mapping = {}
+            for g in n.generators:
+                for t in ast.walk(g.target):
+                    if isinstance(t, ast.Name) and t.id not in mapping:
+                        mapping[t.id] = '_v%d' % counter[0]
+                        counter[0] += 1
+            rename_in(n, mapping)
+        elif isinstance(n, ast.Lambda):
+            mapping = {}
+            for a in n.args.args:
+                mapping[a.arg] = '_v%d' % counter[0]
+                counter[0] += 1
+                a.arg = mapping[a.arg]
+            rename_in(n.body, mapping)
+    return ast.unparse(e)
+
+
+_NEGOP = {ast.Lt: ast.GtE, ast.Gt: ast.LtE, ast.LtE: ast.Gt, ast.GtE: ast.Lt, ast.Eq: ast.NotEq, ast.NotEq: ast.Eq,
+          ast.Is: ast.IsNot, ast.IsNot: ast.Is, ast.In: ast.NotIn, ast.NotIn: ast.In}
+_NEGATIVE = (ast.IsNot, ast.NotEq, ast.NotIn)
+
+
+def _neg(e):
+    """AST of `not e` with the negation pushed inward."""
+    if isinstance(e, ast.UnaryOp) and isinstance(e.op, ast.Not):
+        return canon(e.operand)
+    if isinstance(e, ast.BoolOp):
+        op = ast.Or() if isinstance(e.op, ast.And) else ast.And()
+        return ast.BoolOp(op=op, values=[_neg(v) for v in e.values])
+    if isinstance(e, ast.Compare) and len(e.ops) == 1:
+        return ast.Compare(left=canon(e.left), ops=[_NEGOP[type(e.ops[0])]()], comparators=[canon(e.comparators[0])])
+    return ast.UnaryOp(op=ast.Not(), operand=canon(e))
+
+
+def canon(e):
+    """Canonical form of an expression: negations pushed inward (De Morgan, complemented comparisons, no double
+    negation); conditional expressions oriented so that their test is not negated / uses the positive operator."""
+    import copy
+    if isinstance(e, ast.UnaryOp) and isinstance(e.op, ast.Not):
+        return _neg(e.operand)
+    if isinstance(e, ast.BoolOp):
+        return ast.BoolOp(op=e.op, values=[canon(v) for v in e.values])
+    if isinstance(e, ast.IfExp):
+        t, a, b = canon(e.test), canon(e.body), canon(e.orelse)
+        if isinstance(t, ast.UnaryOp) and isinstance(t.op, ast.Not):
+            return ast.IfExp(test=t.operand, body=b, orelse=a)
+        if isinstance(t, ast.Compare) and len(t.ops) == 1 and isinstance(t.ops[0], _NEGATIVE):
+            return ast.IfExp(test=_neg(t), body=b, orelse=a)
+        return ast.IfExp(test=t, body=a, orelse=b)
+    if isinstance(e, ast.AST):
+        new = copy.copy(e)
+        for f, v in ast.iter_fields(e):
+            if isinstance(v, ast.expr):
+                setattr(new, f, canon(v))
+            elif isinstance(v, list) and v and all(isinstance(x, ast.expr) for x in v):
+                setattr(new, f, [canon(x) for x in v])
+            elif isinstance(v, list) and v and all(isinstance(x, ast.keyword) for x in v):
+                setattr(new, f, [ast.keyword(arg=x.arg, value=canon(x.value)) for x in v])
+        return new
+    return e
+
+
+def canon_src(e):
+    return ast.unparse(ast.fix_missing_locations(canon(e)))
+
+
+def positive_form(test, polarity):
+    """Expression equivalent to `test evaluates to polarity`, in canonical form, predicate helpers inlined."""
+    t = expand_preds(test)
+    out = canon(t) if polarity else _neg(t)
+    return ast.fix_missing_locations(out)
+
+
+def block_of(stmt):
+    """The statement list (body / orelse / finalbody / handler body) that contains stmt."""
+    p = parent(stmt)
+    if p is None:
+        return []
+    for f in ('body', 'orelse', 'finalbody'):
+        lst = getattr(p, f, None)
+        if isinstance(lst, list) and any(x is stmt for x in lst):
+            return lst
+    return getattr(p, 'body', [])
